@@ -54,6 +54,8 @@ def tokens(F, p):
             elif n in ("approvedByGuards", "approvedByEntryGuards"):
                 last_call = "G"
                 t.append("g")
+            elif obj in ("P:currentTransitions", "L:currentTransitions") and not cf.get("const") and n != "operator+=":
+                t.append("CX:" + n)      # the step's record is append-only: any other mutation breaks the protocol
             elif n == "operator+=":
                 t.append("PLUS" if obj in ("P:currentTransitions", "L:currentTransitions") and ev[4] and ev[4][0].startswith("L:pendingTransitions") else "PLUS?")
             elif n == "backup" and cls == "RegistryT":
